@@ -43,6 +43,7 @@ PROPS['C08'] = dict(level='model_checking',
   outside='more than 2 concurrently nested operations',
   harnesses=[
     H('v2_nest_vs_join', 'C08_scope_v2.cpp', ['h_nest0', 'h_join0'], 18, final='h_final11', desc='nest/start/complete racing join'),
+  ] + [SEQ('v1_plan_%02d' % p, 'C08_scope_v1.cpp', 'h_scope_v1', exc=True, opts=dict(params=[p], max_rec=4), desc='v1 scope with one attached manual leaf, event plan %d (base-4: 0 complete(), 1 cleanup(), 2 request_stop(), 3 work finishes); leaf outcome symbolic' % p) for p in range(64)] + [
     H('v2_two_nest_one_join', 'C08_scope_v2.cpp', ['h_nest0', 'h_nest1', 'h_join0'], 24, final='h_final21', tier='thorough', timeout=3000, desc='two nest/start/complete racing join'),
     H('v2_nest_two_joins', 'C08_scope_v2.cpp', ['h_nest0', 'h_join0', 'h_join1'], 24, final='h_final12', tier='thorough', timeout=3000, desc='one nest racing two joins'),
   ])
@@ -87,7 +88,8 @@ PROPS['C17'] = dict(level='model_checking',
   harnesses=[
     SEQ('find_if_par_bounds', 'C17_find_if.cpp', 'h_find_if_par_bounds', exc=True, opts=dict(params=[600], sym_alloc_max=8192, max_visits=60, feas=0), timeout=600, desc='parallel find_if: every dereference is inside [0,N) for all N<=600 and every chunk index'),
   ] + [SEQ('find_if_exact_%s_n%d' % (pol, n), 'C17_find_if.cpp', 'h_find_if_exact_' + pol, exc=True, opts=dict(params=[n], max_visits=200), desc='find_if %s policy, range length %d, symbolic predicate table: result is the first match or end' % (pol, n)) for pol in ('seq', 'par') for n in (0, 1, 3, 4, 5, 9, 13)] +
-   [SEQ('%s_n%d' % (fn, n), 'C17_bulk.cpp', 'h_' + fn, opts=dict(params=[n], max_visits=300), desc='%s over %d indices on the inline scheduler, stop requested after a symbolic number of set_next calls' % (fn, n)) for fn in ('bulk_schedule', 'bulk_transform_join') for n in (0, 1, 15, 16, 17, 33)])
+   [SEQ('%s_n%d' % (fn, n), 'C17_bulk.cpp', 'h_' + fn, opts=dict(params=[n], max_visits=300), desc='%s over %d indices on the inline scheduler, stop requested after a symbolic number of set_next calls' % (fn, n)) for fn in ('bulk_schedule', 'bulk_transform_join') for n in (0, 1, 15, 16, 17, 33)] +
+   [SEQ('bulk_policy_%d' % c, 'C17_bulk.cpp', 'h_bulk_policy', opts=dict(params=[c]), desc='bulk_transform policy meet, own/downstream combination %d' % c) for c in range(10)])
 
 PROPS['C07'] = dict(level='model_checking',
   bounds='time_point arithmetic: |seconds| < 2^32, |nanoseconds| < 2^40, |duration| < 2^44 ticks; timer queue: see harness list',
